@@ -122,8 +122,9 @@ def run_batch(cases):
             h.__name__ = f'n{hname}'
             h.__qualname__ = f'n{hname}'
             handlers.append(h)
-            if okind == 'e':
-                ex = ValueError(f'raised by {i}')
+            if okind in ('e', 'c'):
+                # an error result: an ordinary exception, or (c) the CancelledError bubus records for a handler it cancelled
+                ex = ValueError(f'raised by {i}') if okind == 'e' else asyncio.CancelledError(f'cancelled {i}')
                 excmap[id(ex)] = i
                 errobjs[i] = ex
                 ev.event_result_update(handler=h, eventbus=bus, error=ex)
@@ -237,7 +238,7 @@ def gen_case(rng):
     for i in range(n):
         hname = rng.choice([i, i, i, 0])          # sometimes two handlers share a name
         if rng.random() < 0.15:
-            results.append((hname, 'e', 'none'))
+            results.append((hname, 'c' if rng.random() < 0.25 else 'e', 'none'))
         else:
             vk = rng.choice(VALUES)
             # values the abstract encoding cannot represent as dict / list are only used where validation rejects or converts them
@@ -273,7 +274,7 @@ def typed_clause_violations(case, real):
     recs = real['recorded'].split(',') if real['recorded'] else []
     for (hname, okind, vkind), rec in zip(case['results'], recs):
         i, status, val, err = rec.split(':')
-        if okind == 'e':
+        if okind in ('e', 'c'):
             continue
         if case['type'] == 'none' and vkind not in ('exc',):
             if status != 'completed':
@@ -287,7 +288,10 @@ def decide(prop, tier, seed, gate, my_thms, known, t0, replay):
     import multiprocessing as mp
     n = {'quick': 3000, 'thorough': 60000}[tier]
     rng = random.Random(f'C12:{seed}')
-    cases = [json.load(open(replay))['case']] if replay else [gen_case(rng) for _ in range(n)]
+    import glob
+    # minimised past failures run first (corpus/cases/C12-*.json)
+    past = [json.load(open(p))['case'] for p in sorted(glob.glob(os.path.join(evid.ROOT, 'corpus', 'cases', 'C12-*.json')))]
+    cases = [json.load(open(replay))['case']] if replay else past + [gen_case(rng) for _ in range(n - len(past))]
     for c in cases:
         c['results'] = [tuple(r) for r in c['results']]
     idx = list(enumerate(cases))
